@@ -2,6 +2,7 @@
 """prints the prompt for an independent mutant-writing sub-agent: property text only + its own worktree"""
 import json, sys, subprocess, os
 pid = sys.argv[1]; tag = sys.argv[2] if len(sys.argv) > 2 else pid
+round2 = len(sys.argv) > 3 and sys.argv[3] == 'round2'
 p = [json.loads(l) for l in open('/verif/properties.jsonl') if json.loads(l)['id'] == pid][0]
 wt = '/tmp/mut_%s' % tag
 if not os.path.exists(wt):
@@ -25,3 +26,14 @@ Deliverables, all under {wt}/out/ (create it; it is ignored by git status if you
   out/<n>/demo.* and out/<n>/README.md (what the change is, which clause it breaks, what it needs to manifest, the exact commands you ran and their results: tests pass with the change, demo passes without and fails with)
 Verify everything yourself: for each n start from a clean tree (`git checkout -- . && git status`), apply the patch, rebuild, run ctest (must be 100% pass), build and run the demo (must fail), then revert and confirm the demo passes. Leave the worktree CLEAN (all changes reverted, `git status` shows only out/ and _build/) when you finish. Do not commit anything. Keep total CPU use reasonable (ninja -j8).
 Final message: for each n one paragraph (change, clause broken, trigger, demo result, ctest result).""")
+if round2:
+    import glob
+    ideas = []
+    for d in sorted(glob.glob('/verif/seeded/%s-*' % pid)):
+        name = os.path.basename(d)[4:]
+        if 'harmless' in name: continue
+        try: m = json.load(open(os.path.join(d, 'meta.json')))
+        except Exception: m = {}
+        ideas.append('  - %s%s' % (name.replace('ind-', ''), (': needs ' + m['needs']) if m.get('needs') else ''))
+    print("\nThis is a SECOND round. The following ideas were already used by others for this property - your three changes must be genuinely different from all of them (different mechanism, different trigger, if possible a different clause of the property or a different code site):\n" + "\n".join(ideas))
+    print("\nPrefer changes of these kinds, which are under-represented so far: two cooperating code sites that each look fine alone; state that leaks between calls, objects, threads or process runs; behaviour that only differs for a boundary value of a configuration parameter (0, 1, negative, INT_MAX) or an unusual-but-legal API usage (same object used twice, call order reversed, empty/NULL argument); a platform/library assumption (locale, time zone, file system timestamp granularity, QString null vs empty).")
